@@ -275,6 +275,19 @@ def checkFull (c : Cfg) (s : State) : Bool :=
   && (List.range c.G).all (fun g => (List.range c.B).all (fun b => decide (s.slot g b = cellSpec c s g b)))
   && decide (s.available + c.B * (s.nPop + s.nUnres) + sum2 c.G c.B (tok c s) = c.cap)
 
+/-- Re-tabulates the function-valued fields on the grid `g < G`, `b < B` (arrays instead of chains of
+`upd`). Extensionally the identity; only used by the replay driver to keep look-ups cheap. -/
+def compact (c : Cfg) (s : State) : State :=
+  let slotA := Array.ofFn (n := c.G * c.B) (fun i => s.slot (i.val / c.B) (i.val % c.B))
+  let grpA := Array.ofFn (n := c.G) (fun i => s.grp i.val)
+  let bktA := Array.ofFn (n := c.B) (fun i => s.bkt i.val)
+  let histA := Array.ofFn (n := c.B) (fun i => s.hist i.val)
+  { s with
+    slot := fun g b => if g < c.G ∧ b < c.B then slotA.getD (g * c.B + b) .empty else s.slot g b
+    grp := fun g => if g < c.G then grpA.getD g .queued else s.grp g
+    bkt := fun b => if b < c.B then bktA.getD b .fin else s.bkt b
+    hist := fun b => if b < c.B then histA.getD b [] else s.hist b }
+
 /-- Replays `es` from `s`; after event number `i` the light invariant is checked, and the full one
 when `period > 0` and `period` divides `i + 1`. -/
 def replayAux (c : Cfg) (period : Nat) : State → List Event → Nat → Verdict × State
@@ -283,6 +296,7 @@ def replayAux (c : Cfg) (period : Nat) : State → List Event → Nat → Verdic
     match step? c s e with
     | none => (.reject i, s)
     | some s' =>
+      let s' := if (i + 1) % 64 = 0 then compact c s' else s'
       if (if period > 0 ∧ (i + 1) % period = 0 then checkFull c s' else checkLight c s') then
         replayAux c period s' es (i + 1)
       else (.broken i, s')
